@@ -143,6 +143,74 @@ def items : PyVal → List (PyVal × PyVal)
 def forItemsRet (d : PyVal) (body : PyVal → PyVal → Option PyVal) (rest : PyVal) : PyVal :=
   ((items d).findSome? fun kv => body kv.1 kv.2).getD rest
 
+/-! ### added for the obligation checker (`BasicObligationChecker.check`, core/obligations.py) -/
+
+/-- how control leaves a translated statement range that can `return` AND can be left normally (a loop body with a `return` in it,
+    the statements before a loop): `ret v` = the range executed `return v`; `next vs` = it was left normally, `vs` = the values of
+    its output variables (a loop body: the carried variables, then the `broke` flag). -/
+inductive Flow where
+  | ret (v : PyVal)
+  | next (vars : List PyVal)
+
+/-- `for x in xs: <body>` followed by `<rest>`, for a body that is a FLOW fragment without carried variables (`body x = .ret v`: the
+    iteration executed `return v`; `.next [broke]`: it ended normally, or with `break` when `broke` is `True`): the first returned
+    value in iteration order, else the value of the statements after the loop. -/
+def forFlow (body : PyVal → Flow) (rest : PyVal) : List PyVal → PyVal
+  | [] => rest
+  | x :: xs =>
+    match body x with
+    | .ret v => v
+    | .next [.bool true] => rest
+    | .next _ => forFlow body rest xs
+
+/-- `d.get(k, default)` (on a non-dict CPython raises AttributeError; here the default, as `get` answers `None`) -/
+def getD (d : PyVal) (k : String) (dflt : PyVal) : PyVal :=
+  match d with
+  | .dict kvs => (lookup k kvs).getD dflt
+  | _ => dflt
+
+/-- can the value be a dict key / set member?  (`hash(x)` raises TypeError for lists and dicts; a `datetime` is hashable) -/
+def hashable : PyVal → Bool
+  | .list _ => false
+  | .dict _ => false
+  | _ => true
+
+/-- `a < b` — floats with floats (IEEE: false when either is NaN), ints/bools with ints/bools.  Every other pair of kinds is NOT
+    represented (`false`): str/list comparisons are not used by the translated source, None or a dict on either side is a TypeError
+    in CPython, and an int against a float is compared exactly by CPython (no rounding), which `Float` cannot express here. -/
+def lt : PyVal → PyVal → PyVal
+  | .float a, .float b => .bool (decide (a < b))
+  | .int a, .int b => .bool (decide (a < b))
+  | .bool a, .int b => .bool (decide (boolToInt a < b))
+  | .int a, .bool b => .bool (decide (a < boolToInt b))
+  | .bool a, .bool b => .bool (decide (boolToInt a < boolToInt b))
+  | _, _ => .bool false
+
+/-- `a <= b` (same domain as `lt`) -/
+def le : PyVal → PyVal → PyVal
+  | .float a, .float b => .bool (decide (a ≤ b))
+  | .int a, .int b => .bool (decide (a ≤ b))
+  | .bool a, .int b => .bool (decide (boolToInt a ≤ b))
+  | .int a, .bool b => .bool (decide (a ≤ boolToInt b))
+  | .bool a, .bool b => .bool (decide (boolToInt a ≤ boolToInt b))
+  | _, _ => .bool false
+
+/-- `a > b` is `b < a` -/
+def gt (a b : PyVal) : PyVal := lt b a
+
+/-- `a >= b` is `b <= a` -/
+def ge (a b : PyVal) : PyVal := le b a
+
+/-- the text of an f-string whose parts are literal pieces and `str()` results (the translator renders a replacement field
+    `{x}` as `strO o x`: `format(x, "")` is `str(x)` for every JSON-shaped value) -/
+def fstrText : List PyVal → String
+  | [] => ""
+  | .str s :: rest => s ++ fstrText rest
+  | _ :: rest => fstrText rest
+
+/-- an f-string -/
+def fstr (parts : List PyVal) : PyVal := .str (fstrText parts)
+
 def eq (a b : PyVal) : PyVal := .bool (pyEq a b)
 def ne (a b : PyVal) : PyVal := .bool (!pyEq a b)
 def isNone (a : PyVal) : PyVal := .bool a.isNone
